@@ -73,7 +73,7 @@ def concretise(b, rnd, quick, cid):
         if cor == "len-" and d >= L:
             delta = size              # the abstract scenario announces zero
         elif cor == "len-":
-            delta = min(delta, size - 1) if d < L else size
+            delta = max(1, min(delta, size - 1))
         c = {"id": cid + len(out), "seed": rnd.getrandbits(40), "module": mod, "size": size, "chunk": chunkp,
              "dev_mtu": mtu if mod != "upload" else 0, "own_mtu": mtu if mod == "upload" else 0,
              "cor": cor, "cor_idx": k - 1, "delta": delta, "must": rnd.random() < 0.3, "floor": floor,
